@@ -17,6 +17,9 @@ def main():
   with open(job_path) as f:
     job = json.load(f)
   faulthandler.enable()
+  if job.get('scratch'):
+    sys.pycache_prefix = os.path.join(job['scratch'], 'pyc')
+    sys.dont_write_bytecode = False
   try:
     import resource
     # An exploding statement must become a MemoryError in this child (the case is then
